@@ -215,6 +215,9 @@ func (b *BitArray) GetBitArray() []uint32 {
 }
 
 func (b *BitArray) Reverse() {
+	if b.size == 0 {
+		return
+	}
 	newBits := make([]uint32, len(b.bits))
 	len := (b.size - 1) / 32
 	oldBitsLen := len + 1
